@@ -24,7 +24,34 @@ def threaded(calls: list, nthreads: int, seed: int) -> dict:
     audit.import_all()
     memo = audit.install_memo()
     base = audit.snapshot()
-    seq = [one_call(c, {"gc": False}) for c in calls]
+    # ownership: a call writes nothing another thread could see.  While every third call of the sequential pass runs, the
+    # shared state (module-level and class-level values, memo table excluded) is sampled every few hundred function calls
+    # and compared with start-up: a shared container that is written during a call and restored before it ends (a
+    # class-level stack, a module-level scratch list) shows up here and nowhere else without a lucky interleaving
+    mid: list = []
+    state = {"n": 0, "busy": False}
+
+    def prof(frame, event, arg):  # noqa
+        if event != "call" or state["busy"]:
+            return
+        state["n"] += 1
+        if state["n"] % 400 == 0 and len(mid) < 5:
+            state["busy"] = True
+            try:
+                d = audit.residue(base)
+                if d:
+                    mid.append([d[:5], frame.f_code.co_name])
+            finally:
+                state["busy"] = False
+
+    seq = []
+    for k, c in enumerate(calls):
+        if k % 3 == 0:
+            sys.setprofile(prof)
+        try:
+            seq.append(one_call(c, {"gc": False}))
+        finally:
+            sys.setprofile(None)
     memo.generation += 1          # what the sequential pass left in the memo table belongs to nobody now
     memo.foreign_reads.clear()
     sys.setswitchinterval(1e-6)
@@ -51,6 +78,7 @@ def threaded(calls: list, nthreads: int, seed: int) -> dict:
     sys.setswitchinterval(0.005)
     diffs = [i for i in range(len(calls)) if results[i] != seq[i]]
     return {"ok": True, "diffs": diffs, "errors": errors, "residue": audit.residue(base), "foreign": list(memo.foreign_reads[:3]),
+            "mid": mid[:2],
             "detail": [{"call": calls[i][0], "seq": {k: v for k, v in seq[i].items() if k in ("ok", "err")},
                         "par": {k: v for k, v in (results[i] or {}).items() if k in ("ok", "err")},
                         "part": next((k for k in ("ok", "err", "ops", "text", "sm") if (results[i] or {}).get(k) != seq[i].get(k)), "?")}
@@ -100,6 +128,10 @@ def main() -> None:
         run.count("ownership-conditions:" + ("ok" if not o["residue"] and not o["foreign"] else "BROKEN"))
         if o["foreign"] and owner_broken is None:
             owner_broken = ("step_reads_own", f"a thread reads memo entries written by another thread or an earlier pass: {o['foreign'][:2]}",
+                            {"calls": calls, "threads": n, "seed": s})
+        run.count("ownership (sampled during calls):" + ("ok" if not o.get("mid") else "BROKEN"))
+        if o.get("mid") and owner_broken is None:
+            owner_broken = ("step_writes_own", f"shared values differ from start-up while a call runs (sampled in {o['mid'][0][1]}): {o['mid'][0][0]}",
                             {"calls": calls, "threads": n, "seed": s})
         if o["residue"] and owner_broken is None:
             owner_broken = ("step_writes_own", f"shared values differ from start-up after the threads finished: {o['residue'][:5]}",
